@@ -131,4 +131,69 @@ example : (eventsTwoSite exTree).map (fun evs => (opsOf evs).take 4) =
 
 end gauge
 
+
+/-! ### Value level: the network before every two-site update (builder B45)
+
+The two-site step of the value-level run (`Ptn.C06.Gauge.VStep.two`): the bond between `a` and `b` is replaced by a
+fresh one, `a` receives ANY tensor on its legs that is an isometry in index form toward the fresh bond (contract of
+`split_node_svd`: the factor U), `b` any tensor on its legs. -/
+section siteCanon
+open Ptn.Ein Ptn.C17 Ptn.C17.RTree Ptn.C05.Disc Ptn.C06.Gauge Ptn.C03
+
+/-- **Before every two-site update `two a b` of a two-site TDVP step the doubled tree around `a` is canonical in
+index form** (`Kids.Canon`, built from the current network re-rooted at `a`; `b` is a neighbour of `a`, so the
+sub-tree of `b` is one of the children and its own children are canonical toward `b`), the norm network has the
+value of the tensor of `a` alone, with no hypothesis on intermediate states: only the per-split contracts of the
+run and the truth of the record of the initial network.
+
+`_partial`: (1) the doubled tree around the MERGED pair (children of `a` other than `b` together with the children
+of `b`, centre tensor = the contracted two-site tensor) is not assembled - all its sub-trees are canonical by this
+theorem (`Sub.Canon` of the child `b` contains `Kids.Canon` of the children of `b`), what is missing is the
+concatenation of the two child lists and the contraction of `a` with `b` as a `Centre`; hence the hypothesis
+`k.Canon` of `two_site_update_conserves_norm_of_canonical` is not yet discharged for the pair; (2) `VStep.two`
+demands an exact factorisation of the old tensor of `a` over the fresh bond: truncating SVDs are outside. -/
+theorem two_site_update_kids_canon_partial {R : Type} [CommSemiring R] (dim : Nat → Nat) (cj : R → R)
+    (t : RTree) (hwf : t.WF) (hk : t.kids ≠ []) :
+    ∃ u s evs, updatePath t = some u ∧ u.head? = some s ∧ eventsTwoSite t = some evs ∧
+      ∀ (dir : Rec) (N0 : VNet R), CanonAt t dir s → N0.WF → BondDims dim N0 → (∀ n ∈ ids t, n ∈ N0.ids) →
+        GaugeInv dim cj N0 dir →
+      ∀ (k : Nat) (p q : List DEv) (a b : Nat) (N : VNet R),
+        (List.replicate k evs).flatten = p ++ DEv.two a b :: q → VRun dim cj N0 p N →
+        Adj t a b ∧ N.WF ∧ N.ids = N0.ids ∧
+        ∃ r : RTree, reroot a [] t = some r ∧ r.rid = a ∧ (ids r).Perm (ids t) ∧
+          ∃ up dn : Nat → Nat, (∀ e ∈ edges r, EdgeOK dim cj N up dn e.1 e.2) ∧
+            (kidsOf cj N up dn r.kids).Canon (ddim dim) ∧ (centreOf cj N up dn r).labels.Nodup ∧
+            ∀ σ, netValue (ddim dim) (centreOf cj N up dn r).normBinds ((ids t).flatMap (nodeLeaves cj N)) σ =
+              netValue (ddim dim) ((N.legs a).map dbl) [ketT (N.tens a), braT cj (N.tens a)] σ := by
+  obtain ⟨u, s, evs, hu, hs, hev, hall⟩ :=
+    Ptn.C06.tdvp_event_centre_kids_canon dim cj t hwf .twoSite hk
+  refine ⟨u, s, evs, hu, hs, hev, ?_⟩
+  intro dir N0 hc hwf0 hbd hids hinv k p q a b N hsplit hr
+  obtain ⟨hpre, h1, h2, h3⟩ := hall dir N0 hc hwf0 hbd hids hinv k p q _ N hsplit hr
+  obtain ⟨hca, hab⟩ := gpre_pair (Or.inr (Or.inr (Or.inl rfl))) hpre
+  rw [hca] at h3
+  obtain ⟨r, hr1, hr2, hr3, up, dn, g1, g2, _, g4, _, g6⟩ := h3
+  exact ⟨hab, h1, h2, r, hr1, hr2, hr3, up, dn, g1, g2, g4, g6⟩
+
+/-- the hypotheses are satisfiable: the tree `0 → 1` (two-site step `two 1 0`, `two 0 1`, sweep start 1), the integer
+network `Ptn.C03.isoNet'` whose node 0 is the `Q` factor of a QR move toward node 1, the record `0 > 1`, `1 > -` -/
+example :
+    let t : RTree := .node 0 [.node 1 []]
+    let dir : Rec := applyOps (fun _ => none) [⟨0, 1⟩]
+    t.WF ∧ t.kids ≠ [] ∧ updatePath t = some [1, 0] ∧ eventsTwoSite t = some [.two 1 0, .two 0 1] ∧
+    CanonAt t dir 1 ∧ isoNet'.WF ∧ BondDims demoDim isoNet' ∧ (∀ n ∈ ids t, n ∈ isoNet'.ids) ∧
+    GaugeInv demoDim id isoNet' dir ∧
+    (List.replicate 1 [DEv.two 1 0, .two 0 1]).flatten = [] ++ DEv.two 1 0 :: [.two 0 1] ∧
+    VRun demoDim id isoNet' [] isoNet' := by
+  obtain ⟨h1, h2, _, h4, _⟩ := run_isometric demoDim id isoNet_wf isoNet_run (fun _ => none)
+    (gaugeInv_none _ _ _)
+  have hbd : BondDims demoDim isoNet := by
+    intro p hp
+    simp only [isoNet, List.mem_cons, List.not_mem_nil, or_false] at hp
+    subst hp; rfl
+  exact ⟨by decide, by decide, by decide, by decide, (canonAtB_iff _ _ _).1 (by decide), h2, h4 hbd, by decide,
+    h1, rfl, VRun.nil _⟩
+
+end siteCanon
+
 end Ptn.C07
